@@ -165,6 +165,8 @@ def _run_task(args):
         kw.setdefault('prove_timeout_ms', 120000 if tier == 'quick' else 240000)      # generous: verdicts must not flip on a loaded machine
         kw['task_id'] = tid
         kw['seed'] = seed
+        if os.environ.get('PYVC_FORK_ALL', '0') == '1':
+            kw['extra'] = dict(kw.get('extra') or {}, fork_solver=True)
         cfg = Cfg(**kw)
         lib.USED.clear()
 
@@ -214,7 +216,8 @@ def run_tasks(modname, task_ids, tier, seed, jobs=None, budgets=None):
                 try:
                     results[tid] = pc.recv()
                 except EOFError:
-                    results[tid] = (tid, [], {}, 'worker died without a result')
+                    p.join(5)
+                    results[tid] = (tid, [], {}, f'worker died without a result (exit code {p.exitcode})')
                 p.join(5)
                 done.append(tid)
             elif not p.is_alive():
